@@ -85,6 +85,13 @@ def run(tier, seed):
         if not q:
             k = rng.randrange(len(seq))
             recipes.append({"fn": "typing", "cls": classes.generic_spec_for(classes.build(cspec)), "seq": _gen.rotate(seq, k), "plasmid": key})
+    # growth: cutters whose recognition site contains ambiguity codes (LpnPI CCDG, SgrTI CCDS): members, and look-alikes whose
+    # second 'site' is not a site of the enzyme
+    amb = tc.amb_members(rng, 2 if q else 12)
+    for cspec, s, marks, kind in amb:
+        for k in ([0, rng.randrange(len(s))] if q else rng.sample(range(len(s)), min(len(s), 6))):
+            recipes.append({"fn": "typing", "cls": cspec, "seq": _gen.rotate(s, k)})
+    run.extra["ambiguous_site_records"] = len(amb)
     run.extra["registry_plasmids_typed"] = regn
     traces = [exec_typing(r) for r in recipes]
     acc = 0
